@@ -20,9 +20,12 @@ func (consumer *Consumer) Loop() {
 		if consumer.lifecycle.IsKilled() {
 			return
 		}
+		// read the step before testing the queues: the close step is announced
+		// after the last item was queued, so "closed, then empty" means done
+		step := consumer.lifecycle.Step()
 		if len(consumer.loopData.chans.dirChan) == 0 &&
 			len(consumer.loopData.chans.fileChan) == 0 {
-			if consumer.lifecycle.Step() == StepClose {
+			if step == StepClose {
 				return
 			}
 			runtime.Gosched()
